@@ -138,12 +138,63 @@ type filterSpec struct {
 	Statuses []int64 `json:"statuses"`
 }
 
+// nlist prints a list of N; runs of 4 or more consecutive values are written (nrange start n), so that
+// a filter with a thousand never-created ids stays a short term.
 func nlist(xs []int) string {
-	s := make([]string, len(xs))
-	for i, x := range xs {
-		s[i] = core.N(uint64(x))
+	var parts []string
+	var lit []string
+	flush := func() {
+		if len(lit) > 0 {
+			parts = append(parts, core.List(lit))
+			lit = nil
+		}
 	}
-	return core.List(s)
+	for i := 0; i < len(xs); {
+		j := i + 1
+		for j < len(xs) && xs[j] == xs[j-1]+1 {
+			j++
+		}
+		if j-i >= 4 {
+			flush()
+			parts = append(parts, core.App("nrange", core.N(uint64(xs[i])), core.Nat(j-i)))
+			i = j
+			continue
+		}
+		lit = append(lit, core.N(uint64(xs[i])))
+		i++
+	}
+	flush()
+	if len(parts) == 0 {
+		return "[]"
+	}
+	if len(parts) == 1 {
+		return parts[0]
+	}
+	return "(" + strings.Join(parts, " ++ ") + ")"
+}
+
+// MarshalJSON keeps long id lists readable in replays: runs are written "a..b".
+func (f filterSpec) MarshalJSON() ([]byte, error) {
+	ids := any(f.IDs)
+	if len(f.IDs) > 40 {
+		var parts []string
+		for i := 0; i < len(f.IDs); {
+			j := i + 1
+			for j < len(f.IDs) && f.IDs[j] == f.IDs[j-1]+1 {
+				j++
+			}
+			if j-i >= 3 {
+				parts = append(parts, fmt.Sprintf("%d..%d", f.IDs[i], f.IDs[j-1]))
+			} else {
+				for k := i; k < j; k++ {
+					parts = append(parts, fmt.Sprint(f.IDs[k]))
+				}
+			}
+			i = j
+		}
+		ids = map[string]any{"count": len(f.IDs), "ids": strings.Join(parts, " ")}
+	}
+	return json.Marshal(map[string]any{"ids": ids, "groups": f.Groups, "statuses": f.Statuses})
 }
 
 func (f filterSpec) term() string {
@@ -451,6 +502,8 @@ type scenario struct {
 	steps   []stepRec
 	live    map[int]planSpec // harness's own bookkeeping, used only to aim the generator
 	nPlans  int
+	index   int
+	tier    string
 	groups  []int
 	unknown []int
 	hist    map[string]int
@@ -556,7 +609,11 @@ func (s *scenario) filters(f filterSpec) storage.Filters {
 func (s *scenario) search(f filterSpec) {
 	sf := s.filters(f)
 	s.hist["filter:"+f.kind()]++
-	s.hist[fmt.Sprintf("filter-values:%d", len(f.IDs)+len(f.Groups)+len(f.Statuses))]++
+	if n := len(f.IDs) + len(f.Groups) + len(f.Statuses); n > 40 {
+		s.hist[fmt.Sprintf("long-filter:%d-ids:%s", len(f.IDs), f.kind())]++
+	} else {
+		s.hist[fmt.Sprintf("filter-values:%d", n)]++
+	}
 	if s.vt.cosmos {
 		// the text and parameters the real Cosmos service would receive
 		text, params := cosmosdb.VerifSearchQuery(sf)
@@ -637,6 +694,59 @@ func pick(r *core.Rand, pool []int, k int) []int {
 }
 
 var statusPool = []int64{0, 100, 200, 300, 400}
+
+const (
+	fillerBase  = 1000
+	fillerCount = 1200
+)
+
+// longFilter builds a ByIDs list of total entries: never-created ids, with the live plans' ids planted at
+// positions around the multiples of 500 (and at the ends), oldest submission first, so that any
+// implementation that answers slice by slice returns them in the wrong order; sometimes one live id twice,
+// far apart. kind adds group / status filters as in randomFilter.
+func (s *scenario) longFilter(total int, kind int) filterSpec {
+	r := s.r
+	var live []planSpec
+	for ix := 1; ix <= s.nPlans; ix++ {
+		if ps, ok := s.live[ix]; ok {
+			live = append(live, ps)
+		}
+	}
+	sort.SliceStable(live, func(i, j int) bool { return live[i].Submit < live[j].Submit })
+	// planting positions, ascending: slice boundaries first, then spread
+	cand := []int{0, 499, 500, 501, 999, 1000, 1001, total - 1, 250, 750, total - 2, 1, 498, 502, 998, 1002, 100, 600}
+	var pos []int
+	seen := map[int]bool{}
+	for _, c := range cand {
+		if c >= 0 && c < total && !seen[c] && len(pos) < len(live) {
+			seen[c] = true
+			pos = append(pos, c)
+		}
+	}
+	sort.Ints(pos)
+	ids := make([]int, total)
+	fill := fillerBase + r.Intn(50)
+	pi := 0
+	for i := 0; i < total; i++ {
+		if pi < len(pos) && pos[pi] == i {
+			ids[i] = live[pi].Ix
+			pi++
+			continue
+		}
+		ids[i] = fill
+		fill++
+	}
+	if len(live) > 0 && r.Chance(0.3) {
+		// the oldest plan's id once more, in the last slice
+		p := total - 3
+		if !seen[p] {
+			ids[p] = live[0].Ix
+		}
+	}
+	f := s.randomFilter(kind&^1, true)
+	f.IDs = ids
+	return f
+}
 
 func (s *scenario) randomFilter(kind int, multi bool) filterSpec {
 	r := s.r
@@ -730,6 +840,13 @@ func (s *scenario) battery(full bool) {
 		}
 		// no filter at all: Filters.Validate
 		s.search(filterSpec{})
+		// long id lists (more than 500 / 1000 entries), alone and with the other filters
+		totals := []int{501, 600, 1100}
+		kinds := []int{1, 1, 3, 5, 7}
+		s.search(s.longFilter(totals[s.index%3], kinds[(s.index/3)%5]))
+		if s.tier == "thorough" {
+			s.search(s.longFilter(totals[(s.index+1)%3], kinds[(s.index/3+2)%5]))
+		}
 	}
 	n := len(s.live)
 	limits := []int{-1, 0, 1, n - 1, n, n + 1}
@@ -768,7 +885,7 @@ func runScenario(seed uint64, index int, tier string, scratch string) core.Case 
 	defer vt.cleanup()
 
 	s := &scenario{r: r, backend: backend, vt: vt, a: &abs{ids: map[uuid.UUID]int{}}, h: processHangs,
-		live: map[int]planSpec{}, nPlans: nPlans, hist: map[string]int{}}
+		live: map[int]planSpec{}, nPlans: nPlans, index: index, tier: tier, hist: map[string]int{}}
 	// uuid pool: 0 = Nil, 1..n plan ids, then 2 ids nobody creates, then 3 group ids
 	s.uu = []uuid.UUID{uuid.Nil}
 	total := nPlans + 2 + 3
@@ -779,6 +896,15 @@ func runScenario(seed uint64, index int, tier string, scratch string) core.Case 
 	}
 	s.unknown = []int{nPlans + 1, nPlans + 2}
 	s.groups = []int{nPlans + 3, nPlans + 4, nPlans + 5}
+	// never-created ids for long ByIDs lists: indices fillerBase .. fillerBase+fillerCount-1
+	for len(s.uu) < fillerBase {
+		s.uu = append(s.uu, uuid.Nil)
+	}
+	for k := 0; k < fillerCount; k++ {
+		u := plangen.V7(r)
+		s.uu = append(s.uu, u)
+		s.a.ids[u] = fillerBase + k
+	}
 
 	// submit times: a base, second offsets; a small pool gives ties, a wide one distinct times
 	base := int64(1704067200) // 2024-01-01T00:00:00Z
@@ -1060,5 +1186,3 @@ func readLines(path string) []string {
 	}
 	return out
 }
-
-var _ = sort.Ints
